@@ -40,6 +40,13 @@ ROUTES = [
     "{{<c p={v} />}}", "{{<c p={[v]} />}}", "{% set o = {'p': v} %}{{<c {...o} />}}", "{% <c p='a'> %}{{ v }}{% </c> %}", "{% <c p={v}> %}{{ v }}{% </c> %}",
     "{{<outer p={v} />}}", "{% <outer p={v}> %}{{ v }}{% </outer> %}",
     "{% for i in [1, 2] %}{% set x %}{{ v }}{% endset %}{{ x }}{% endfor %}", "{% if v %}{{ v }}{% endif %}",
+    # values of safe ORIGIN (captures, component results) combined with data by filters and operators: what comes out is a new
+    # string, and data in it is still data
+    "{% set a %}x{% endset %}{% set b %}y{% endset %}{{ [a, b] | join(sep=v) }}", "{% set a %}x{% endset %}{{ [a, v] | join(sep='-') }}", "{% set a %}x{% endset %}{{ [a] | join(sep=v) ~ v }}",
+    "{% set a %}xax{% endset %}{{ a | replace(from='a', to=v) }}", "{% set a %}xyz{% endset %}{{ a | truncate(length=1, end=v) }}", "{% set a %}x{% endset %}{{ a ~ v }}|{{ v ~ a }}",
+    "{% set a %}{% endset %}{{ a | default(value=v, boolean=true) }}", "{% set a %}x,y{% endset %}{{ a | split(pat=',') | join(sep=v) }}", "{% set a %}x{% endset %}{{ [a, a] | first ~ v }}",
+    "{% set a %}x{% endset %}{{ a | indent(width=1) ~ v }}", "{% set a %}x{% endset %}{{ {'k': a, 'd': v} }}", "{% set a %}x{% endset %}{{ [a, v] }}", "{% set a %}x{% endset %}{% set m = {'k': a, 'd': v} %}{{ m.d }}{{ m.k }}",
+    "{% set a = <c p='x' /> %}{{ [a, a] | join(sep=v) }}", "{% set a %}x{% endset %}{{ (a if false else v) }}", "{% set a %}x{% endset %}{{ [a, v] | last }}{{ [v, a] | first }}", "{% set a %}x{% endset %}{{ [a, v] | reverse | join }}",
 ]
 LIB = [["inc", "I{{ v }}"], ["incx", "I{{ x }}"],
        ["comps", "{% component c(p) %}C{{ p }}{% if body is defined %}{{ body }}{% endif %}{% endcomponent c %}"
